@@ -692,13 +692,16 @@ def finish(rep, info, stats, samples, counts):
             "axioms: the standard-library axioms of Coq's classical reals (allow-list AX_REALS) for the theorems over R; the structural theorems are closed",
             "modelled, not verified: usize as nat (no index near 2^64), frames as lists of equal length, Fixed ring buffer as in C06",
             "libm sin/cos are not modelled: the crate's own values are passed to the model as data; lib/c18_model.py is a second transcription compared bit for bit",
-            "Base/Float.v (Flocq BinarySingleNaN) validated against rustc by lib/floatbase.py in this run"],
+            "Base/Float.v (Flocq BinarySingleNaN) validated against rustc by lib/floatbase.py in this run",
+            "formats 10..23: the model's sample conversions are the ones GENERATED from conv.rs / impl_sample! on this run (Dsp/SincRunGen.v over Sample/SampleOps.v); equilibrium, to_sample::<f64>() of every input sample and every tap accumulation are compared with their specification values (Sample/ConvSpec.v, IEEE) and a mismatch is a disagreement; the python transcription uses the specification values only"],
         "theorems": th, "axioms_reported": info.get("axioms", []),
         "proved_clauses": ["max_depth = min(idx+1, depth)", "nl - n does not underflow", "tap indices in range / no panic, no UB",
                            "x = 0 returns frames[idx] (R, true sin/cos/pi)", "ratio 1: output j = source j - depth, zeros before (R)",
                            "linearity in the buffered frames (R)", "reset = initial silent state"],
         "tested_clauses": ["ratio-1 error <= 1e-12 * peak with glibc sin/cos and rounded PI", "linearity within rounding (f64 1e-12*scale, f32 (8 taps+4) ulp24*scale, i16 (1+|a|+|b|) LSB per tap)",
-                           "finite output for finite input (|s| <= 1e300)", "constant input within 1 % once the buffer is full, depth >= 4 (i16: + 1 LSB per tap truncation)"],
+                           "finite output for finite input (|s| <= 1e300)", "constant input within 1 % once the buffer is full, depth >= 4 (integers: + 1 LSB per tap truncation)",
+                           "all fourteen sample formats (i8 i16 I24 i32 I48 i64 u8 u16 U24 u32 U48 u64 f32 f64), mono and stereo: ratio 1 reproduces the source delayed by depth BIT-EXACTLY for integer formats <= 48 bits including the rails MIN and MAX (64-bit integers and floats: 1e-12 of the peak amplitude; 64-bit rails fall in K5)",
+                           "float streams with tiny (f32 peak 2^-130..2^-120, f64 subnormal) and huge (1e38 / 1e300) peaks at ratio 1 relative to their peak; scaling H = k F with k in {2^-126, 2^-100, 2^100} commutes with interpolation within rounding"],
         "evaluations": counts.get("n", 0), "distinct_nontrivial": counts.get("nontriv", 0),
         "rule": "non-trivial = depth >= 2 and an interpolation at a fractional position (x != 0) while 0 < idx < depth (priming phase) or after a reset; distinct harness lines counted",
         "samples": samples, "input_distribution": stats, "disagreements": counts.get("bad", 0),
